@@ -44,7 +44,7 @@ CHECKS = {
    technique="deterministic simulation: random history then a frozen virtual instant; rendered key captured from the simulated terminal vs getter through the public formatter",
    text="For 25 documented keys the text painted on the simulated terminal at a frozen instant must equal the getter value at that same instant pushed through the documented public formatter; templates with several keys at once must show each value in its place; tick strings are checked against the list the style was built with; custom keys must see the current state, be ticked/reset with the bar and survive style()/template()/set_style round trips untouched. Sampling over histories; exact replay."),
  "C16": dict(level="exploration", ref="DESIGN.md §5 C16", technique=SEQ_TECH + "; byte-level inspection of every string reaching the terminal seam",
-   text="Seeded call orders of tab-width, style, message and prefix setters (builder calls in all 24 orders) with tabs in texts, template literals and custom-key output; no TAB may reach the terminal, the transcript must equal the model rendering with the current tab width, message()/prefix() must return the expanded text. Sampling; exact replay."),
+   text="Seeded call orders of tab-width, style, message and prefix setters (builder calls in all 24 orders) with tabs in texts, template literals (also next to escaped braces) and custom-key output, tab widths from 0 to beyond 65535; no TAB may reach the terminal, the transcript must equal the model rendering with the current tab width, message()/prefix() must return the expanded text. Sampling; exact replay."),
  "C17": dict(level="exploration", ref="DESIGN.md §5 C17",
    technique="deterministic simulation with fault injection: simulated reader/writer/stream with seeded short/EINTR/EAGAIN/EIO/Pending/EOF plan, call-by-call differential against an unwrapped twin + position model; seeded rayon split driver with leaves on simulated threads",
    text="Seeded search over call sequences and fault plans on simulated I/O objects behind the adaptors' existing Read/BufRead/Write/Seek/tokio Async*/Stream/Iterator/rayon plumbing seams. Sinks with and without vectored support, empty leading slices, declared lengths that are wrong. Every call is compared with an unwrapped twin that follows the same seeded behaviour plan and position() with an exact transfer count. Sampling; exact replay from the scenario file."),
